@@ -2378,9 +2378,15 @@ def _factorize_multiple(
             if expect is None and is_duck_dask_array(by_):
                 raise ValueError("Please provide expected_groups when grouping by a dask array.")
 
+        def _found(by_):
+            # an in-memory grouper without expected_groups: find its labels once (as factorize_ would)
+            # so that every block is factorized against the same index
+            found = pd.Index(pd.unique(by_.reshape(-1)))
+            found = found[~found.isna()]
+            return found.sort_values() if sort else found
+
         found_groups = tuple(
-            pd.Index(pd.unique(by_.reshape(-1))) if expect is None else expect
-            for by_, expect in zip(by, expected_groups)
+            _found(by_) if expect is None else expect for by_, expect in zip(by, expected_groups)
         )
         grp_shape = tuple(map(len, found_groups))
 
@@ -2393,7 +2399,7 @@ def _factorize_multiple(
                 meta=np.array((), dtype=np.int64),
                 **kwargs,
             )
-            for by_, expect_ in zip(by_chunked, expected_groups)
+            for by_, expect_ in zip(by_chunked, found_groups)
         ]
         # This could be avoied but we'd use `np.where`
         # instead `_ravel_factorized` instead i.e. a copy.
